@@ -17,7 +17,7 @@ theorem finish_resp_nofault (s : State) (st : RunSt) (h : String) (dry : Bool) (
   | false => rfl
 
 theorem retry_resp_wet (strict : Bool) (op : Op) (s : State) (st : RunSt) :
-    (retry strict op.wet none s st).resp = (retry strict op none s st).resp := by
+    (retry strict op.wet none false s st).resp = (retry strict op none false s st).resp := by
   unfold retry
   simp only [fires, Op.wet]
   generalize run op.now "t2" none (runLog strict op.kind op.ik op.ihash op.sv 2) _ = res
